@@ -354,3 +354,26 @@ package config
 //@   loop 1 binds c
 //@   loop 1 invariant ad != nil && fresh(ad) && ad.Communities != nil && fresh(ad.Communities)
 //@   loop 1 invariant forall v community.BGPCommunity :: (v in ad.Communities) == (exists j int :: 0 <= j && j < iter && CommVal(crdAd.Spec.Communities[j], communities) == v)
+
+// ---- C08: the top-level parser returns the pools poolsFor accepted, or an error ----
+// (profile / peer parsing, the BGP extras and the final validation only read the resources and the configuration: assumed)
+//@ func bfdProfilesFor
+//@   trusted
+//@   modifies nothing
+//@ func peersFor
+//@   trusted
+//@   modifies nothing
+//@ func bgpExtrasFor
+//@   trusted
+//@   modifies nothing
+//@ func validateConfig
+//@   trusted
+//@   modifies nothing
+//@ func For
+//@   abstract
+//@   ensures [made] result1 == nil ==> result0 != nil && result0.Pools != nil && result0.Pools.ByName != nil
+//@   ensures [keyed] result1 == nil ==> PoolsKeyed(result0.Pools.ByName)
+//@   ensures [disjoint] result1 == nil ==> (forall n string, m string, i int, j int :: (n in result0.Pools.ByName) && (m in result0.Pools.ByName) && 0 <= i && i < len(result0.Pools.ByName[n].CIDR) && 0 <= j && j < len(result0.Pools.ByName[m].CIDR)
+//@       && result0.Pools.ByName[n].CIDR[i] != result0.Pools.ByName[m].CIDR[j] ==> !Overlap(result0.Pools.ByName[n].CIDR[i], result0.Pools.ByName[m].CIDR[j]))
+//@   ensures [nodeFree] result1 == nil ==> (forall n string, i int :: (n in result0.Pools.ByName) && 0 <= i && i < len(result0.Pools.ByName[n].CIDR) ==> NodeFree(resources.Nodes, result0.Pools.ByName[n].CIDR[i]))
+//@   ensures [failed] result1 != nil ==> result0 == nil
